@@ -858,7 +858,10 @@ func (v *Verifier) runReplayFile(file string, fn *ssa.Function) ReplayResult {
 	}
 	if !res.Reproduced && res.Detail == "" {
 		res.Detail = "replay did not run to completion: " + firstLines(text, 6)
-		if strings.Contains(text, "panic:") && !strings.Contains(text, "[build failed]") {
+		if strings.Contains(text, "test timed out") {
+			// the replay hung (e.g. a channel operation nobody answers in the test): nothing is shown
+			res.Detail = "replay timed out (not counted as a reproduction): " + firstLines(text, 2)
+		} else if strings.Contains(text, "panic:") && !strings.Contains(text, "[build failed]") {
 			// an uncaught panic (e.g. runtime fatal) still demonstrates the failure
 			res.Reproduced = true
 			res.Detail = "reproduced: test binary crashed: " + firstLines(text, 3)
